@@ -19,7 +19,11 @@
      C18_ecus_2_prune_once        --ecus copies every requested ECU with direct_ecu_only=False and removes the ECUs that are
                                   neither requested nor sender of a copied frame ONCE at the end (was: after each item, which
                                   struck the ECUs requested later - or earlier - from receiver lists and from the ECU list);
-     C18_frames_missing_name      --frames skips a name no frame has (was AttributeError on None);
+     C18_frames_missing_name      --frames (and --merge file:frame=X) skips a name no frame has (was AttributeError on None);
+     C18_merge_ecu_keeps_target   --merge file:ecu=X copies with direct_ecu_only=False (the clean-up of direct_ecu_only=True deleted
+                                  the receive-only and unreferenced ECUs of the matrix that is merged into) - inside o_merge;
+     C18_cli_rename_frame_help    (command line only: --frameIdIncrement declared, help text of --renameFrame)
+     C18_dbc_free_signal_enum_attr (DBC writer only: ENUM attributes of free signals written as keys)
      C18_change_frame_id_any_type --changeFrameId finds the frame by its identifier number whatever its type (was
                                   ArbitrationId(int(old)) = an 11-bit identifier: ArbitrationIdOutOfRange above 0x7FF,
                                   29-bit frames never found);
